@@ -6,6 +6,8 @@ import os
 import sys
 
 sys.setrecursionlimit(10000)
+# abandoned coroutines of dropped virtual loops complain when they are finalised: not a result
+sys.unraisablehook = lambda *a, **k: None
 
 
 def main(argv=None):
